@@ -28,6 +28,7 @@ class Profile(object):
         self.bb = False            # blackboard leaves / s2b decorator allowed
         self.invalid_policy = 0.03
         self.p_stop = 0.15
+        self.p_inner_stop = 0.0       # share of the stop operations that hit a random inner behaviour instead of the root
         self.p_poke = 0.0
         self.min_ops, self.max_ops = 1, 12
         self.w_outcome = {"R": 40, "S": 35, "F": 25}
@@ -207,7 +208,8 @@ def guards(spec):
 
 def gen_tick(rng, prof, spec, now):
     outs = ",".join("%d:%s" % (i, wchoice(rng, prof.w_outcome)) for i in probes(spec))
-    gs = ",".join("%d:%s" % (g, "1" if rng.random() < 0.75 else "0") for g in guards(spec))
+    # an EternalGuard condition answers a bool or a Status (only False / FAILURE close the guard)
+    gs = ",".join("%d:%s" % (g, rng.choice(["1", "1", "1", "1", "S", "R", "0", "F"])) for g in guards(spec))
     return "tick o=%s g=%s t=%d" % (outs, gs, now)
 
 
@@ -221,7 +223,11 @@ def gen_ops(rng, prof, spec):
     for _ in range(n):
         r = rng.random()
         if r < prof.p_stop and len(ops) > 1:
-            ops.append("stop %d" % spec[1])
+            if rng.random() < prof.p_inner_stop:
+                # an external stop(INVALID) on a behaviour inside the tree (any user may call it)
+                ops.append("stop %d" % rng.choice([n[1] for n in spec_nodes(spec)]))
+            else:
+                ops.append("stop %d" % spec[1])
         elif r < prof.p_stop + prof.p_poke:
             x = rng.random()
             if x < 0.55:
